@@ -16,7 +16,7 @@ def judge(ck, c, r, I, M, S, sup):
         return 'a value that does not conform to the annotation was accepted'
     if S == 2 and I != 1:
         return f'a non-conforming value was rejected with {CC.OUT_NAMES.get(I, I)} instead of PedanticTypeCheckException'
-    if c['obs'] in ('pedantic', 'pedantic_star') and S == 2 and r.get('body_ran'):
+    if c['obs'] in ('pedantic', 'pedantic_star', 'pedantic_default') and S == 2 and r.get('body_ran'):
         return 'the body ran although the argument does not conform'
     return None
 
